@@ -19,6 +19,7 @@ func getArrayElement
 func ParseFieldPath
   props C05 C16 C20
   option safety
+  atreturn every-segment-of-the-path-is-parsed: result1 == nil && result0 != nil ==> $done1
 
 func parseComplexPart
   props C05 C16 C20
